@@ -341,15 +341,16 @@ class EditableModule(object):
         _set_tensors(self, copy_tensors)
 
         # run the method and see which one has the gradients
-        output = method(*args, **kwargs)
-        if not isinstance(output, torch.Tensor):
-            raise RuntimeError("The method to be asserted must have a tensor output")
-        output = output.sum()
-        grad_tensors = torch.autograd.grad(output, copy_tensors0, retain_graph=True, allow_unused=True)
-
-        # return the original tensor
-        all_tensors_copy = copy.copy(all_tensors)
-        _set_tensors(self, all_tensors_copy)
+        try:
+            output = method(*args, **kwargs)
+            if not isinstance(output, torch.Tensor):
+                raise RuntimeError("The method to be asserted must have a tensor output")
+            output = output.sum()
+            grad_tensors = torch.autograd.grad(output, copy_tensors0, retain_graph=True, allow_unused=True)
+        finally:
+            # return the original tensor (also if the method raises)
+            all_tensors_copy = copy.copy(all_tensors)
+            _set_tensors(self, all_tensors_copy)
 
         names = []
         params = []
